@@ -123,7 +123,7 @@ def staged_commit_models(K=2):
 PURE_MLS = {'MlsGroup::epoch', 'GroupEpoch::as_u64', 'MlsGroup::group_id', 'member_at', 'own_leaf', 'MlsGroup::own_leaf',
             'StagedCommit::update_path_leaf_node', 'MlsGroup::pending_commit', 'BasicCredential::identity',
             'LeafNode::credential', 'UpdateProposal::leaf_node', 'Timestamp::as_secs', 'RemoveProposal::removed',
-            'ProtocolMessage::epoch', 'ProtocolMessage::content_type', 'ProtocolMessage::group_id', 'MDK::storage',
+            'ProtocolMessage::epoch', 'ProcessedMessage::epoch', 'ProtocolMessage::content_type', 'ProtocolMessage::group_id', 'MDK::storage',
             'ProcessedMessage::credential', 'ProcessedMessage::sender', 'MlsGroup::own_leaf_index', 'own_leaf_index',
             '<GroupId as Into>::into', '<GroupId as From>::from'}
 
